@@ -88,6 +88,44 @@ def run(tier):
     cov["trace_events"] = len(events)
     cov["trace_classes"] = dict(cl)
 
+    # 3b. the layer that builds the list: real projects through GenerateGraph + Validate; exactly the methods whose FULL path
+    #     (controller route + method route) overlaps another same-verb route must carry a route-conflict warning
+    from . import f1_pipeline as f1
+    out = os.path.join(sc, "c15proj.cases")
+    r = c.tlc("PipelineMC", "Pipeline_c15sim.cfg", workers=1, out_file=out, simulate="num=%d" % (800 if thorough else 60), depth=80, seed_=seed + 5, timeout=3000)
+    if r.rc == 124 or r.error or r.violated:
+        raise c.Trouble("TLC emission for the project-level C15 check failed:\n" + r.out[-1500:])
+    prec = os.path.join(sc, "c15proj.rec")
+    f1.pipe_run(v, c.build_gleece(), out, prec, os.path.join(sc, "c15work"), ["--main=false", "--alt=false"])
+    pj = f1.judge(v, prec, prec + ".json")
+    if pj["trouble"]:
+        raise c.Trouble("harness trouble in the project-level C15 run: " + "; ".join(pj["trouble"][:2]))
+    proj_findings = [f for f in pj["findings"] if f["prop"] == "C15"]
+    c.log("project level: %d projects validated by the real ApiValidator, %d with conflicting routes, %d differing" %
+          (pj["evaluated"].get("C15", 0), pj["nontrivial"].get("C15", 0), len(proj_findings)))
+    cov["project_level"] = {"projects": pj["evaluated"].get("C15", 0), "with_conflicts": pj["nontrivial"].get("C15", 0)}
+    if pj["evaluated"].get("C15", 0) == 0:
+        raise c.Trouble("project-level C15 run evaluated nothing")
+    proj_violations = []
+    for f in proj_findings[:2]:
+        # isolation: re-run that single project in a fresh directory / process
+        one = os.path.join(sc, "c15one-%s.cases" % f["id"])
+        import hashlib
+        with open(one, "w") as fo:
+            for line in open(out):
+                if line.startswith('"CASE ') and "c" + hashlib.sha256(json.loads(line).encode()).hexdigest()[:12] == f["id"]:
+                    fo.write(line)
+        rec1 = one + ".rec"
+        f1.pipe_run(v, c.build_gleece(), one, rec1, os.path.join(sc, "c15work1"), ["--main=false", "--alt=false"])
+        again = [x for x in f1.judge(v, rec1, rec1 + ".json")["findings"] if x["prop"] == "C15"]
+        if not again:
+            raise c.Trouble("project-level C15 candidate not reproduced in isolation: " + f["what"])
+        keep = os.path.join(c.REPLAYS, "C15-%s.cases" % f["id"])
+        os.makedirs(c.REPLAYS, exist_ok=True)
+        import shutil
+        shutil.copy(one, keep)
+        proj_violations.append((again[0]["what"], c.save_replay(PROP, {"property": PROP, "family": "trie-project", "case_file": keep, "what": again[0]["what"]})))
+
     # 4. confirm in isolation
     violations, known_hits = [], []
     known = c.known_for(PROP)
@@ -111,6 +149,7 @@ def run(tier):
             path = c.save_replay(PROP, {"property": PROP, "family": "trie", "list": L, "class": vd})
             violations.append((desc, path))
 
+    violations += proj_violations
     cov["traces_validated_against_impl"] = replayed + len(events)
     cov["evaluations"] = replayed + len(events)
     cov["distinct_nontrivial"] = nontrivial
@@ -125,6 +164,18 @@ def run(tier):
 def replay(path):
     v = c.build_harness()
     data = json.load(open(path))
+    if data.get("family") == "trie-project":
+        from . import f1_pipeline as f1
+        sc = c.scratch()
+        rec1 = os.path.join(sc, "c15replay.rec")
+        f1.pipe_run(v, c.build_gleece(), data["case_file"], rec1, os.path.join(sc, "c15workr"), ["--main=false", "--alt=false"])
+        again = [x for x in f1.judge(v, rec1, rec1 + ".json")["findings"] if x["prop"] == "C15"]
+        if not again:
+            print("replay: project handled as the property demands on this tree")
+            return 0
+        print("VIOLATION property=%s replay=%s" % (PROP, path))
+        print("  " + again[0]["what"])
+        return 1
     vd = classify(v, [data["list"]])[0]
     if vd == "strict":
         print("replay: list handled as the property demands on this tree")
